@@ -118,6 +118,26 @@ class C09(CodeMonitor):
         raw2 = ref.raw_instructions(c2.co_code)
         sym2 = ref.resolve(c2, raw2)
         self.check_one(case, c2, raw2, sym2, d2, stats, "canonical")
+        # the same function with its *args / **kwargs variable named '' (legal through an
+        # AST or code.replace): parameters still count first in the first-use order
+        if case.get("s") == "SIG" and case.get("blankstar") is None and is_function(code):
+            i = code.co_argcount + code.co_kwonlyargcount
+            for flag in (ref.CO_VARARGS, ref.CO_VARKEYWORDS):
+                if code.co_flags & flag:
+                    if "" not in code.co_varnames:
+                        vn = code.co_varnames[:i] + ("",) + code.co_varnames[i + 1 :]
+                        self.check_code(dict(case, blankstar=i), ref.code_replace(code, co_varnames=vn), stats)
+                    i += 1
+
+    def replay(self, case, stats):
+        root = spaces.build_code(case)
+        code = root
+        for i in case.get("cpath", []):
+            code = code.co_consts[i]
+        if case.get("blankstar") is not None:
+            i = case["blankstar"]
+            code = ref.code_replace(code, co_varnames=code.co_varnames[:i] + ("",) + code.co_varnames[i + 1 :])
+        self.check_code(case, code, stats)
 
     def check_one(self, case, code, raw, sym, d, stats, which):
         uses, ranks, unref = first_use_ranks(code, raw, sym)
